@@ -4,7 +4,8 @@ from concurrent.futures import ThreadPoolExecutor
 
 
 def gen_scripts(ctx, cfg):
-    g = ctx.tlc_generate("", "Login", cfg, workers=1)
+    # the scripts come out of the code-shaped step model: each with the contract's verdict and the model's outcome
+    g = ctx.tlc_generate("", "LoginFlow", cfg, workers=1)
     seen, out = set(), []
     for s in g["scenarios"]:
         k = json.dumps(s, sort_keys=True)
@@ -26,9 +27,19 @@ def run_login(ctx, scripts, judge, extra_args=(), label="", parts=12):
     with ThreadPoolExecutor(max_workers=parts) as ex:
         outs = list(ex.map(one, range(parts)))
     t = os.path.join(ctx.scratch, "login-%s.ndjson" % judge)
+    drift = {"modelled": 0, "drift": 0, "drift_samples": []}
     with open(t, "w") as o:
         for p in outs:
             o.write(open(p).read())
+            if os.path.exists(p + ".summary.json"):
+                sm = json.load(open(p + ".summary.json"))
+                drift["modelled"] += sm.get("modelled", 0)
+                drift["drift"] += sm.get("drift", 0)
+                drift["drift_samples"] += sm.get("drift_samples") or []
+    ctx.extra["loginflow_model_vs_code"] = drift
+    if drift["modelled"]:
+        from vlib import log
+        log("  [U2] LoginFlow step model vs Channel.Login: %d scripts, %d with a different outcome" % (drift["modelled"], drift["drift"]))
     ctx.validate("", "Trace_Login", "Trace_Login.cfg", t, label=label, extra_env={"JUDGE": judge}, stack="16m")
     return t
 
@@ -39,17 +50,18 @@ def run(ctx):
         ctx.validate("", "Trace_Login", "Trace_Login.cfg", ctx.replay, shards=1, label="replay (recorded trace)", extra_env={"JUDGE": "C08"})
         return ctx.finish()
     ctx.tlc_mc("", "Login", "MC_Login_thorough.cfg" if thorough else "MC_Login.cfg", workers=8)
-    scripts = gen_scripts(ctx, "Gen_Login.cfg")
+    ctx.tlc_mc("", "LoginFlow", "MC_LoginFlow_thorough.cfg" if thorough else "MC_LoginFlow.cfg", workers=8)
+    scripts = gen_scripts(ctx, "Gen_LoginFlow.cfg")
     if thorough:
         import random
         rnd = random.Random(ctx.seed)
-        s2 = gen_scripts(ctx, "Gen_Login2.cfg")
+        s2 = gen_scripts(ctx, "Gen_LoginFlow2.cfg")
         rnd.shuffle(s2)
-        scripts += s2[:6000]
+        scripts += s2
     verdicts = {}
     for s in scripts:
         verdicts[s["verdict"]] = verdicts.get(s["verdict"], 0) + 1
-    run_login(ctx, scripts, "C08", label="every single-edit script of both flows%s, random key sizes / nonce lengths / remote servers / packetisations" % (" + 6000 double edits" if thorough else ""))
+    run_login(ctx, scripts, "C08", label="every single-edit script of both flows%s, random key sizes / nonce lengths / remote servers / packetisations" % (" + every double edit" if thorough else ""))
     ctx.extra.update({"scripts": len(scripts), "verdict_classes": verdicts})
     ctx.assumptions += [
         "the peer answers the client's first message with the first server message and the client's encrypted reply with the second; packages after the last end-of-message are never sent",
